@@ -28,7 +28,7 @@ func registerAll() {
 
 	reg("R5", "callback-install: every stored child handed out (StoredValue of a looked-up value) or stored (root.Set/Insert of a caller value) passes setCallbackWithChild on every success path with the container's inline limit; read-only iterators arm setMutationCallback", ruleR5)
 	reg("R7", "detached child is materialised: every Storable returned by an exported Array/OrderedMap method is the result of uninlineStorableIfNeeded", ruleR7)
-	reg("N1", "the mutableElementIndex entry of a removed/overwritten child is deleted, guarded only by identity tests", ruleN1)
+	reg("N1", "the mutableElementIndex entry of a removed/overwritten child is deleted, guarded only by identity tests; a bulk pop resets the whole index", ruleN1)
 	reg("N2", "parent-updater callbacks re-set the child only on paths that passed a ValueID.equal==true edge and after a fresh lookup", ruleN2)
 	reg("N3", "parentUpdater is assigned only by setParentUpdater and cleared only on the not-found edge of its own invocation", ruleN3)
 	reg("L8", "root-id preservation: whatever replaces Array/OrderedMap.root carries the id read from the previous root before any id change; ValueID independent of inlining", ruleL8)
@@ -91,8 +91,8 @@ func registerAll() {
 	const tCFG = "CFG path rules on go/ssa (must-precede, edge dominance, loop-iteration coverage, error-edge reachability)"
 	propTable["C01"] = &PropSpec{
 		ID:    "C01",
-		Rules: []string{"L8", "L7", "L9", "R6", "B1", "L6", "R1", "N2"},
-		Explanation: "structural necessary conditions of sequence behaviour: every index-out-of-bounds rejection is taken exactly when the request is out of range for the operation (index >= count for access, index > count for insertion; decided by case analysis over the three orderings of index and bound) and cannot be passed when out of range; whatever replaces the root carries the id read from the previous root (so the array can always be reopened by its identifier); every write of an element list or child header table is accompanied on every success path by the matching size / count / cumulative-count update; after a child mutation every success path evaluates the split / merge decision and refreshes the parent's header copy, and the handle evaluates root.IsFull and single-child promotion; out-of-range requests are rejected before any effect; elements are materialised with the array's inline limit; every slab mutated or created by an operation is stored (or its parent notified) before the operation returns, so a later reopen by the root identifier sees the same sequence; a nested container's parent-updater callback writes into the array only after confirming, by value id, that the slot still holds that container.",
+		Rules: []string{"L8", "L7", "L9", "R6", "B1", "L6", "R1", "N1", "N2"},
+		Explanation: "structural necessary conditions of sequence behaviour: every index-out-of-bounds rejection is taken exactly when the request is out of range for the operation (index >= count for access, index > count for insertion; decided by case analysis over the three orderings of index and bound) and cannot be passed when out of range; whatever replaces the root carries the id read from the previous root (so the array can always be reopened by its identifier); every write of an element list or child header table is accompanied on every success path by the matching size / count / cumulative-count update; after a child mutation every success path evaluates the split / merge decision and refreshes the parent's header copy, and the handle evaluates root.IsFull and single-child promotion; out-of-range requests are rejected before any effect; elements are materialised with the array's inline limit; every slab mutated or created by an operation is stored (or its parent notified) before the operation returns, so a later reopen by the root identifier sees the same sequence; the index kept for nested containers is deleted with the element it tracks and reset by a bulk pop (a stale entry makes the next in-range Insert fail); a nested container's parent-updater callback writes into the array only after confirming, by value id, that the slot still holds that container.",
 		NotDecided: "that returned elements equal the sequence model: index routing (linear scan / binary search over cumulative counts), split/merge/borrow arithmetic and 'in-range requests never fail' are value-dependent and not decided statically.",
 		Technique:  "co-update path rules, must-pass-through rules and reject-before-effect typestate over go/ssa",
 	}
